@@ -59,3 +59,13 @@ PROPS['C12'] = dict(
     assumptions=[],
     domain=[],
 )
+
+PROPS['C07'] = dict(
+    title='The multi-source generator yields every item exactly once and terminates',
+    groups=[dict(template='c07_generator.rs')],
+    input_search=True,
+    claim='',
+    not_covered=[],
+    assumptions=[],
+    domain=[],
+)
